@@ -62,10 +62,11 @@ RestoreOK(r) ==
       RP     == {s.p : s \in R}
       Needed == {s.p : s \in {s \in S : s.t = "dir" /\ \E x \in RP : IsAncestor(s.p, x)}}
       \* a snapshot directory (or the root) in which restore does its work
-      SnapDir(d) == \E s \in S : s.p = d /\ s.t = "dir"
-      Worked(d) == IF d = Root THEN RP # {}
-                   ELSE SnapDir(d) /\ (d \in RP \/ \E x \in RP : IsAncestor(d, x))
       SockP  == {s.p : s \in {s \in R : s.t = "socket"}}    \* selected, but restore cannot create them
+      RW     == RP \ SockP                                  \* what restore really writes
+      SnapDir(d) == \E s \in S : s.t = "dir" /\ s.p = d
+      Worked(d) == IF d = Root THEN RW # {}
+                   ELSE SnapDir(d) /\ (d \in RW \/ \E x \in RW : IsAncestor(d, x))
       \* for a pre-existing entry that is not part of the snapshot: the chain from its top-most
       \* ancestor that is not part of the snapshot down to the entry itself
       Chain(p) == {Prefix(p, n) : n \in {n \in 1..Len(p.comps) : Prefix(p, n) \notin SP}}
@@ -81,7 +82,7 @@ RestoreOK(r) ==
   \* nothing else appears or changes: every other entry of the target is a directory needed to
   \* hold a restored entry, or an untouched pre-existing entry
   /\ \A a \in A :
-        \/ a.p \in RP \ SockP
+        \/ a.p \in RW
         \/ a.p \in SockP /\ a.t = "socket"
         \/ a.t = "dir" /\ a.p \in Needed
         \/ \E e \in ToSet(r.pre) : e.p = a.p /\ e.t = a.t /\ (a.t = "dir" \/ a.c = "pre")
